@@ -116,7 +116,7 @@ def depth_boundary_pass(ctx, dist):
             meta.append(("interpolation-chain", d))
         hist.collect_tables(ctx, cases, lambda c: {}, hist.docs_of_history)
         im = ctx.impl(cases)
-        mo = ctx.model(cases)
+        mo = ctx.model(cases, sample=False)
         accepted = 0
         for (shape, d), a, b in zip(meta, im, mo):
             oa = a[-1][1][0] if isinstance(a, list) and a and isinstance(a[-1], list) and len(a[-1]) > 1 and isinstance(a[-1][1], list) else str(a)[:40]
